@@ -197,9 +197,9 @@ class StmtMixin:
             base.items[i] = value
         elif isinstance(base, SeqV):
             term = as_int_term(key)
-            real = z3.If(term < 0, term + base.n, term)
+            real = self.normal_index(term, base.n)
             self.check_safe(z3.And(real >= 0, real < base.n), "IndexError", line)
-            base.arr = z3.Store(base.arr, z3.simplify(real), self.pack(value, base.et))
+            base.put(z3.simplify(real), self.pack(value, base.et))
         elif isinstance(base, DictV):
             self.dict_set(base, key, value)
         else:
@@ -453,6 +453,7 @@ class StmtMixin:
             raise Unsupported(f"loop variable {name} is None before the loop; give its type in Loop(types=...)")
         if isinstance(current, SeqV):
             current.arr = z3.Const(hint + "[]", current.arr.sort())
+            current.off = 0
             current.n = z3.Int(hint + ".len")
             self.ctx.assume(current.n >= 0)
             return current
